@@ -43,10 +43,10 @@ structure SubSt where
 
 namespace Subs
 
-/-- notification method names of the harness module: nA, nB, and — the `register_subscription_raw`
-method, whose notification name equals its subscribe name — subC -/
+/-- notification method names of the harness module: nA, nB, nC, and — the raw-registered method
+whose notification name equals its subscribe name — subD -/
 def methName (m : Nat) : String :=
-  if m == 2 then "subC" else "n" ++ String.singleton (Char.ofNat (65 + m))
+  if m == 3 then "subD" else "n" ++ String.singleton (Char.ofNat (65 + m))
 
 /-! typed subscription ids on the line protocol: a decimal number is `Num n`, `s<hex>` is `Str`
 (`s-` = the empty string); the model works with `idKey` of the typed id -/
@@ -69,6 +69,7 @@ def keyRepr (k : Nat) : String :=
 
 def frameRepr : Frame → String
   | .resp rid sid => s!"resp:{rid}:{keyRepr sid}"
+  | .respDead rid sid => s!"resp:{rid}:{keyRepr sid}"
   | .err rid code => s!"err:{rid}:{code}"
   | .unsub rid b => s!"bool:{rid}:{if b then 1 else 0}"
   | .data m sid p => s!"ntf:{methName m}:{keyRepr sid}:{p}"
@@ -322,6 +323,11 @@ def subsVerb (s : SubSt) (ws : List String) : Option (SubSt × String) :=
       | ["accept", k] =>
         (match k.toNat? with
           | some k => if acceptParked s k then answer s "bad" else runOp s (.accept k)
+          | none => (s, "bad-op"))
+      | ["cancelcall", k] =>
+        -- the subscribe call's future is dropped (only the harness-owned connection task can do that)
+        (match k.toNat? with
+          | some k => if s.eager || acceptParked s k then answer s "bad" else runOp s (.cancelCall k)
           | none => (s, "bad-op"))
       | ["parkacceptsend", k, p, how] =>
         (match k.toNat?, p.toNat? with
